@@ -275,7 +275,7 @@ func check(rt *rapid.T, c *chains.Chain, p *chains.Cond, mode string, v variatio
 	if err := realTx.Error; err != nil && !(c.MayNotFind() && errors.Is(err, gorm.ErrRecordNotFound)) {
 		fail("the real run failed: %v", err)
 	}
-	if len(stmts) < len(plan.Real) || len(stmts) > len(plan.Real)+1 || (len(stmts) > len(plan.Real) && !plan.ExtraReal) {
+	if len(stmts) < len(plan.Real) || (len(stmts) > len(plan.Real)+1 && !plan.ExtraRealMany) || (len(stmts) > len(plan.Real) && !plan.ExtraReal && !plan.ExtraRealMany) {
 		fail("the real run sent %d statement(s), the operation consists of %d", len(stmts), len(plan.Real))
 	}
 	for i, st := range dry {
